@@ -593,3 +593,32 @@ def ret_expr(p, depth=0):
         e = last
         seen += 1
     return e
+
+
+def resolve_on_path(expr, p, depth=0):
+    """`expr` with every local name replaced by the value last assigned to it
+    on path `p` (so that `x = f(v); return G(x)` reads `G(f(v))`)."""
+    if expr is None or depth > 4:
+        return expr
+    last = {}
+    for st in p.stmts:
+        if isinstance(st, (ast.Assign, ast.AnnAssign)) and st.value is not None:
+            tgts = st.targets if isinstance(st, ast.Assign) else [st.target]
+            for t in tgts:
+                if isinstance(t, ast.Name):
+                    last[t.id] = st.value
+    if not last:
+        return expr
+    import copy
+
+    class S(ast.NodeTransformer):
+        def visit_Name(self, node):
+            if isinstance(node.ctx, ast.Load) and node.id in last:
+                return resolve_on_path(copy.deepcopy(last[node.id]), p, depth + 1) if depth < 3 else node
+            return node
+
+        def visit_Lambda(self, node):
+            return node
+    out = S().visit(copy.deepcopy(expr))
+    ast.fix_missing_locations(out)
+    return out
